@@ -331,6 +331,8 @@ def universe(tier, seed, shard, nshards):
                 else:
                     args = [a for a in ARGS if a['k'] in (2, None) and a['minlength'] == 2][:6] if (len(s) == 5 or pen == 0.5) else []
                 yield 'U1-pairs', 1, q, s, pen, args
+            # the None encoding of 'no penalty' must behave like 0 (seed C13h)
+            yield 'U1-pairs', 1, q, s, None, [ARGS[0]]
     A2 = univ.alphabet(univ.BASE2, seed)
     q2 = univ.series_nd(A2, 2, 1, 2)
     s2 = univ.series_nd(A2, 2, 1, 3)
@@ -341,6 +343,7 @@ def universe(tier, seed, shard, nshards):
                 continue
             for pen in (0, 0.5):
                 yield 'U2-ndim', 2, q, s, pen, [ARGS[0], ARGS[13], ARGS[-1]]
+            yield 'U2-ndim', 2, q, s, None, [ARGS[0]]
 
 
 def hist_universe(tier, seed, shard, nshards):
